@@ -29,6 +29,10 @@ type Pool struct {
 	Recycle int
 	// PathPrefix: extra directories in front of the workers' private PATH
 	PathPrefix string
+	// Stop: when set, cases not yet dispatched are dropped (used after many
+	// crashes/hangs, each of which costs a full watchdog period)
+	Stop    atomic.Bool
+	Dropped atomic.Int64
 }
 
 type child struct {
@@ -233,6 +237,10 @@ func (p *Pool) Run(cases []*proto.Case, fn func(c *proto.Case, r *proto.Result))
 		}(slot)
 	}
 	for _, cs := range cases {
+		if p.Stop.Load() {
+			p.Dropped.Add(1)
+			continue
+		}
 		jobs <- cs
 	}
 	close(jobs)
